@@ -28,3 +28,15 @@ Definition local_headers_ok : bool := forallb fully_initialised local_headers.
 (* the three header objects the codecs build frames and messages from *)
 Definition codec_headers_ok : bool :=
   fully_initialised "ASAM::CMP::CmpHeader" && fully_initialised "ASAM::CMP::MessageHeader" && fully_initialised "TECMP::CmpHeader".
+
+(* C20 (iii): scalar / enumeration / pointer data members without a default member initialiser, over ALL library classes. Allowed:
+   the members of the Vendor alternative of MessageHeader's anonymous union (the union is initialised through interfaceId{0}) and the
+   two members of TECMP::LinPayload::Header (the library never creates an object of that class: it is only a view over zero-filled
+   vector storage). Anything else would be indeterminate after value-initialisation by a container or default construction. *)
+Definition uninit_allowed (m : string * string) : bool :=
+  let '(cls, name) := m in
+  (String.eqb cls "ASAM::CMP::MessageHeader" && (String.eqb name "vendor.reserved" || String.eqb name "vendor.vendorId")) ||
+  (String.eqb cls "ASAM::CMP::MessageHeader::Vendor" && (String.eqb name "reserved" || String.eqb name "vendorId")) ||
+  (String.eqb cls "TECMP::LinPayload::Header" && (String.eqb name "pid" || String.eqb name "dataLength")).
+Definition members_ok : bool := forallb uninit_allowed gen_uninit_members.
+Definition bad_members : list (string * string) := filter (fun m => negb (uninit_allowed m)) gen_uninit_members.
